@@ -22,6 +22,7 @@ macro_rules! dispatch {
             "C06" => $f::<props::c06::C06>($($arg),*),
             "C14" => $f::<props::c14::C14>($($arg),*),
             "C17" => $f::<props::c17::C17>($($arg),*),
+            "C18" => $f::<props::c18::C18>($($arg),*),
             "C19" => $f::<props::c19::C19>($($arg),*),
             "C20" => $f::<props::c20::C20>($($arg),*),
             other => {
@@ -74,6 +75,7 @@ fn main() {
             use supervisor::exec_case_main;
             dispatch!(id, exec_case_main(tier))
         }
+        "c18-child" => props::c18::child_main(args[2].parse().expect("port")),
         "replay" => {
             if args.len() < 4 {
                 usage()
